@@ -180,7 +180,7 @@ def run_batch(cache, idx, seed, plugin, scale, profile, case=None):
     with open(f'{d}/emit.jsonl', 'w') as fout:
         subprocess.run([MODEL, f'{d}/case.json'], input='{"op":"emit"}\n', text=True, stdout=fout, timeout=600)
     # scratch sources are not needed any more
-    for sub in ('spkg', 'tgt'):
+    for sub in ('spkg', 'tgt', 'dpkg'):
         shutil.rmtree(f'{d}/{sub}', ignore_errors=True)
     open(f'{d}/done', 'w').write('1')
     return d
